@@ -25,6 +25,16 @@ where
     }
   }
 
+  // a handle that can only emit into this subject (see Subject::emitter)
+  pub(crate) fn emitter(&self) -> ReplaySubject<'a, Item> {
+    ReplaySubject {
+      subject: Arc::new(self.subject.emitter()),
+      items: Arc::clone(&self.items),
+      was_error: Arc::clone(&self.was_error),
+      was_completed: Arc::clone(&self.was_completed),
+    }
+  }
+
   pub fn next(&self, item: Item) {
     (*self.items.write().unwrap()).push(item.clone());
     self.subject.next(item);
